@@ -90,7 +90,7 @@ def gen_cases(rng, tier):
   # with one callable shared by two potentials: the energy pass and the force pass both revisit row 1 - judged strictly
   for i in range(28 if tier == "quick" else 196):
     v = spec.EXACT_BOUNDARY_VARIANTS[i % len(spec.EXACT_BOUNDARY_VARIANTS)]
-    route = ["potable", "cli", "api_legacy", "api_class"][(i + i // 7) % 4]
+    route = ["potable", "cli", "api_legacy", "api_class"][(i % 7 + i // 7) % 4]
     model, k = spec.exact_boundary_model(rng, rng.choice(["DL_POLY", "DLPOLY"]), v, dlpoly=True, shared=route.startswith("api"))
     cases.append({"route": route, "model": model, "style": rng.randrange(1 << 30), "reject": False, "exact_boundary": v, "root_on_grid": k})
   # plain Python callables whose first rows are whole numbers returned as int (a capped core: 100 below r_c), floats later
